@@ -25,7 +25,8 @@ RULE = (
     "After every decode the destination is judged by the independent feasibility "
     "predicate (inside the bin, pairwise disjoint, multiplicities, item size in one "
     "of two orientations, bins 1..k, n_bins = k) and the instance dtype must hold "
-    "bin_height + item_height and n_items + 1. Non-trivial and distinct as in C14.")
+    "bin_height + item_height and n_items + 1. Non-trivial and distinct as in C14."
+    ' The constructor is also offered items that fit in no orientation (what it accepts is decoded and judged) and matrices whose buffer the caller re-uses.')
 COMPONENTS = c14.COMPONENTS
 ASSUMPTIONS = [
     "the feasibility predicate in simkit/oracles/packing.py is the reading of the "
